@@ -1443,8 +1443,8 @@ pub mod hist {
 	}
 
 	#[cfg(feature = "bit-vec")]
-	pub fn bits<T: bitvec::store::BitStore + Reg + Encode, O: bitvec::order::BitOrder>(ctx: &mut Ctx)
-	where bitvec::vec::BitVec<T, O>: Reg + Encode, bitvec::slice::BitSlice<T, O>: Encode {
+	pub fn bits<T: bitvec::store::BitStore<Unalias = T> + Reg + Encode, O: bitvec::order::BitOrder>(ctx: &mut Ctx)
+	where bitvec::vec::BitVec<T, O>: Reg + Encode, bitvec::slice::BitSlice<T, O>: Encode, bitvec::boxed::BitBox<T, O>: Encode {
 		use bitvec::vec::BitVec;
 		let tn = <BitVec<T, O>>::name();
 		if !ctx.wants(&tn) { return }
@@ -1469,7 +1469,9 @@ pub mod hist {
 				outs.push(enc2(&d));
 				// encode a borrowed sub-slice at an arbitrary bit offset as well
 				let a = g.below(d.len() + 1); let b = a + g.below(d.len() - a + 1);
-				sls.push(json!([a, b, enc2(&&d[a..b])]));
+				// alternately as a borrowed slice and as a box made from it (both keep the head offset)
+				if ops.len() % 2 == 0 { sls.push(json!([a, b, enc2(&&d[a..b])])); }
+				else { sls.push(json!([a, b, enc2(&bitvec::boxed::BitBox::from_bitslice(&d[a..b]))])); }
 			}
 			emit::<BitVec<T, O>>(ctx, ops, outs, sls);
 		}
